@@ -61,16 +61,22 @@ func permanentError(kind int) error {
 // ---- toy Weierstrass curve: P-256 arithmetic, extra validity mask ----
 
 type toyW struct {
-	wrap   bool
-	mask   byte
-	cnt    *counter
-	fault  fault
-	nNew   int
-	nShift *int
+	wrap    bool
+	mask    byte
+	cnt     *counter
+	fault   fault
+	nNew    int
+	nShift  *int
+	hmacKey []byte // nil = "toyW seed"
 }
 
-func (t *toyW) Name() string    { return "toyW" }
-func (t *toyW) HmacKey() []byte { return []byte("toyW seed") }
+func (t *toyW) Name() string { return "toyW" }
+func (t *toyW) HmacKey() []byte {
+	if t.hmacKey != nil {
+		return append([]byte{}, t.hmacKey...)
+	}
+	return []byte("toyW seed")
+}
 func (t *toyW) NewPrivateKey(buf []byte) (slip10.Key, error) {
 	t.cnt.tick()
 	t.nNew++
